@@ -11,16 +11,16 @@ ID = "C13"
 #: Gen/C13.lean and compared with the literal in Properties/C13.lean (`modelled_functions_have_the_transcribed_shape`)
 SHAPES = [
     ("shapeFctFit", "mlinsights/mlmodel/sklearn_transform_inv_fct.py", "FunctionReciprocalTransformer.fit"),
-    ("shapeFctTransform", "mlinsights/mlmodel/sklearn_transform_inv_fct.py", "FunctionReciprocalTransformer.transform"),
+    ("shapeFctTransform", "mlinsights/mlmodel/sklearn_transform_inv_fct.py", "FunctionReciprocalTransformer.transform", "full"),
     ("shapeFctInv", "mlinsights/mlmodel/sklearn_transform_inv_fct.py", "FunctionReciprocalTransformer.get_fct_inv"),
     ("shapePermFit", "mlinsights/mlmodel/sklearn_transform_inv_fct.py", "PermutationReciprocalTransformer.fit"),
     ("shapePermTransform", "mlinsights/mlmodel/sklearn_transform_inv_fct.py", "PermutationReciprocalTransformer.transform"),
     ("shapePermInv", "mlinsights/mlmodel/sklearn_transform_inv_fct.py", "PermutationReciprocalTransformer.get_fct_inv"),
-    ("shapeRegFit", "mlinsights/mlmodel/target_predictors.py", "TransformedTargetRegressor2.fit"),
-    ("shapeRegPredict", "mlinsights/mlmodel/target_predictors.py", "TransformedTargetRegressor2.predict"),
-    ("shapeClfFit", "mlinsights/mlmodel/target_predictors.py", "TransformedTargetClassifier2.fit"),
-    ("shapeClfApply", "mlinsights/mlmodel/target_predictors.py", "TransformedTargetClassifier2._apply"),
-    ("shapeClfClasses", "mlinsights/mlmodel/target_predictors.py", "TransformedTargetClassifier2.classes_"),
+    ("shapeRegFit", "mlinsights/mlmodel/target_predictors.py", "TransformedTargetRegressor2.fit", "full"),
+    ("shapeRegPredict", "mlinsights/mlmodel/target_predictors.py", "TransformedTargetRegressor2.predict", "full"),
+    ("shapeClfFit", "mlinsights/mlmodel/target_predictors.py", "TransformedTargetClassifier2.fit", "full"),
+    ("shapeClfApply", "mlinsights/mlmodel/target_predictors.py", "TransformedTargetClassifier2._apply", "full"),
+    ("shapeClfClasses", "mlinsights/mlmodel/target_predictors.py", "TransformedTargetClassifier2.classes_", "full"),
     ("shapeClfPredict", "mlinsights/mlmodel/target_predictors.py", "TransformedTargetClassifier2.predict"),
     ("shapeClfPredictProba", "mlinsights/mlmodel/target_predictors.py", "TransformedTargetClassifier2.predict_proba"),
 ]
@@ -685,13 +685,14 @@ def fct_domain_grid():
     return numpy.array([-0.875, -0.5, -0.25, 0.0, 0.125, 0.5, 1.0, 1.5, 2.0, 3.0, 5.0, -2.0, -5.0])
 
 
-def check_fct(name, ys):
-    """round trip of one predefined name on targets `ys` (list of floats): [(key, what, observed, required)]"""
+def check_fct(name, ys, dtype="float64"):
+    """round trip of one predefined name on targets `ys` (list of numbers, held in an array of `dtype`: count targets
+    are integer arrays): [(key, what, observed, required)]"""
     import numpy
     from mlinsights.mlmodel.sklearn_transform_inv_fct import FunctionReciprocalTransformer as F
     bad = []
-    y = numpy.array(ys, dtype=float)
-    y0 = y.copy()
+    y = numpy.array(ys, dtype=numpy.dtype(dtype))
+    y0 = y.astype(float)
     X = numpy.arange(2 * len(y), dtype=float).reshape(len(y), 2)
     X0 = X.copy()
     with numpy.errstate(all="ignore"):
@@ -707,7 +708,7 @@ def check_fct(name, ys):
     if not (X2 is X and X3 is X and numpy.array_equal(X, X0)):
         bad.append(("FunctionReciprocalTransformer[%s]:features-touched" % name, "features are not returned untouched",
                     "X changed or replaced", "X"))
-    if not numpy.array_equal(y, y0):
+    if not numpy.array_equal(y.astype(float), y0):
         bad.append(("FunctionReciprocalTransformer[%s]:targets-mutated" % name, "caller's y was modified",
                     y.tolist(), y0.tolist()))
     tol = 64 * EPS * (1 + numpy.abs(y0)) * (1 + numpy.abs(numpy.where(indom, y2, 0.0)))
@@ -737,10 +738,12 @@ def check_regressor(name, ys):
         fy = f(y)
         if not numpy.isfinite(fy).all():
             return []
-        for regressor in (RR(), LinearRegression()):
+        for regressor, wts in ((RR(), None), (LinearRegression(), None), (RR(), numpy.ones(len(y))),
+                               (LinearRegression(), 1.0 + (numpy.arange(len(y)) % 3))):
             RR.seen = []
             try:
-                tr = TR(regressor=regressor, transformer=name).fit(X, y)
+                tr = TR(regressor=regressor, transformer=name)
+                tr = tr.fit(X, y) if wts is None else tr.fit(X, y, sample_weight=wts)
                 inner = tr.regressor_.predict(X)
                 pred = tr.predict(X)
             except Exception as e:
@@ -1078,6 +1081,12 @@ def search(ctx, hints):
         for key, what, obs, req in bad:
             inp = {"kind": "fct", "name": name, "y": [obs["y"]] if isinstance(obs, dict) and "y" in obs else ys[:5]}
             found.append(Violation(key, what, inp, obs, req))
+        for dt in ("int64", "int32"):
+            ints = [1, 2, 3, 5, 7, 4, 0, -2]
+            evals += 1
+            for key, what, obs, req in check_fct(name, ints, dtype=dt):
+                found.append(Violation(key + ":integer-targets", what + " (targets held in an %s array)" % dt,
+                                       {"kind": "fct", "name": name, "y": ints, "dtype": dt}, obs, req))
         bad = check_regressor(name, [0.125, 0.5, 1.0, 2.0, 3.0, 4.5])
         evals += 1
         report(bad, {"kind": "reg", "name": name, "y": [0.125, 0.5, 1.0, 2.0, 3.0, 4.5]})
@@ -1149,7 +1158,9 @@ def replay(ctx, item):
     inp = item["input"]
     kind = inp["kind"]
     if kind == "fct":
-        bad = check_fct(inp["name"], inp["y"])
+        bad = check_fct(inp["name"], inp["y"], inp.get("dtype", "float64"))
+        if inp.get("dtype"):
+            bad = [(k + ":integer-targets", w, o, r) for k, w, o, r in bad]
     elif kind == "reg":
         bad = check_regressor(inp["name"], inp["y"])
     elif kind == "perm":
